@@ -260,6 +260,12 @@ def run(rep, tier):
                 rep.fail("C15.U4-equal", h.name, "harness " + h.name, why)
             else:
                 rep.ok("C15.U4-equal", h.name)
+    # in-bounds access to heap storage needs the allocation premise of C01: every conversion sizes its buffer for the index range
+    from . import c05, c14
+    c05.declare(rep)
+    for r in ("C05.a", "C05.cuda", "C05.b", "C05.b-hilbert", "C05.d", "C05.e"):
+        rep.rules.pop(r, None)
+    c05.run_conversions(c14.only(rep), "quick")
     rep.extra["harness_builds"] = total
     rep.extra["stacks_instantiated_for_diagnostics"] = nst
     return total
